@@ -334,7 +334,9 @@ class LocSlice(LocBase):
             stop = _get_partitions(self.frame, self.iindexer.stop)
         else:
             stop = self.frame.npartitions - 1
-        return stop
+        # an empty selection whose start label lies in a later partition than
+        # its stop label still needs one (empty) output partition
+        return max(stop, self.start)
 
     @functools.cached_property
     def istart(self):
